@@ -114,6 +114,32 @@ def sibling_scopes(g, ctx, rnd):
     return tree, ('sibling-swapped-body' if swapped else 'sibling-same-name')
 
 
+def enum_capture(g, ctx, rnd):
+    """enumerated declaration whose DOMAIN binds locals with the same names as the declared variables (legal: the domain is a
+    closed scope); the domain is evaluated again for every further variable, inside the scope of the preceding ones"""
+    sets = [(n, t) for n, t in ctx.types.items() if n not in ctx.funcs and t != ty.LOGIC and t[0] == 's' and t[1][0] == 'e']
+    if not sets:
+        return None
+    gname, gt = rnd.choice(sets)
+    a, v, b = rnd.sample(g.names_pool[:12], 3)
+    L = lambda n: N('ID_LOCAL', n)
+    G = lambda: N('ID_GLOBAL', gname)
+    kind = rnd.choice(['imperative', 'declarative', 'quantified'])
+    if kind == 'imperative':
+        dom = N('NT_IMPERATIVE_EXPR', None, [L(a), N('ASSIGN', None, [L(v), G()]), N('ITERATE', None, [L(a), L(v)])])
+    elif kind == 'declarative':
+        dom = N('NT_DECLARATIVE_EXPR', None, [L(a), G(), N('EXISTS', None, [L(v), G(), N('EQUAL', None, [L(v), L(a)])])])
+    else:
+        dom = N('NT_DECLARATIVE_EXPR', None, [L(v), G(), N('FORALL', None, [L(b), G(), N('OR', None, [N('EQUAL', None, [L(b), L(v)]), N('NOTEQUAL', None, [L(b), L(v)])])])])
+    names = [a, v] if rnd.random() < 0.5 else [a, v, b]
+    body = N(rnd.choice(['OR', 'AND', 'IMPLICATION']), None, [N(rnd.choice(['EQUAL', 'NOTEQUAL']), None, [L(names[0]), L(names[1])]), N('IN', None, [L(names[-1]), G()])])
+    tree = N(rnd.choice(['FORALL', 'EXISTS']), None, [N('NT_ENUM_DECL', None, [L(n) for n in names]), dom, body])
+    if rnd.random() < 0.4:
+        tree = N('CARD', None, [N('NT_DECLARATIVE_EXPR', None, [L('q_'), G(), tree])])
+        tree = N('GREATER', None, [tree, N('LIT_INTEGER', 0)])
+    return tree, 'enum-domain-shares-names'
+
+
 def build_cases(rnd, tier, nctx, per_ctx, big=False, mutants=0.25):
     cases = []
     for _ in range(nctx):
@@ -125,7 +151,7 @@ def build_cases(rnd, tier, nctx, per_ctx, big=False, mutants=0.25):
         for _ in range(per_ctx):
             tree = g.expression(rnd.choice([1, 2, 2, 3, 3, 4]))
             mut = 'none'
-            sib = sibling_scopes(g, ctx, rnd) if rnd.random() < 0.1 else None
+            sib = sibling_scopes(g, ctx, rnd) if rnd.random() < 0.1 else (enum_capture(g, ctx, rnd) if rnd.random() < 0.04 else None)
             if sib is not None:
                 tree, mut = sib
             elif rnd.random() < mutants:
